@@ -1,5 +1,6 @@
 import S2T.Drv.Util
 import S2T.Gen.Encryption
+import S2T.Gen.PdfCrypt
 namespace S2T.Drv.C08
 open Lean S2T.Drv S2T.Enc
 
@@ -137,6 +138,40 @@ def pdfOp (j : Json) : Except String Json := do
     | some v => do let n ← v.getNat?; pure (some n)
   return Json.mkObj [("rej", Json.bool (pdfRejects K e d))]
 
+def parseCfm (s : String) : S2T.PdfCrypt.Cfm :=
+  if s = "V2" then .v2 else if s = "AESV2" then .aesv2 else if s = "AESV3" then .aesv3 else if s = "None" then .none else .other
+
+def optStr (j : Json) (k : String) : Except String (Option String) :=
+  match optField j k with
+  | none => pure none
+  | some v => do let s ← v.getStr?; pure (some s)
+
+/-- op `c08.pdfopen` {"doc": null | {"v", "cf": [[name, cfm]], "stmf", "strf", "eff"}, "aes": bool}
+    ↦ {"ok", "aes", "needsAes", "supported", "ready", "stmAes", "strAes"}: `_open_pdf_reader` on the document in a process
+    whose AES state is `aes` (opaque guard parts taken as false) -/
+def pdfOpenOp (j : Json) : Except String Json := do
+  let aes ← getBool j "aes"
+  let d : S2T.PdfCrypt.Doc ← match optField j "doc" with
+    | none => pure none
+    | some o => do
+      let v ← getNat o "v"
+      let cf ← (← getArr o "cf").toList.mapM (fun x => do
+        let a ← x.getArr?
+        let n ← (a[0]?.getD Json.null).getStr?
+        let m ← (a[1]?.getD Json.null).getStr?
+        pure (n, parseCfm m))
+      pure (some { v := v, cf := cf, stmF := ← optStr o "stmf", strF := ← optStr o "strf", eff := ← optStr o "eff" })
+  let ρ : S2T.PdfCrypt.Doc → Nat → Bool := fun _ _ => false
+  let r := S2T.PdfCrypt.openReader S2T.Gen.PdfCrypt.code ρ ⟨aes⟩ d
+  let (ok, after) := match r with
+    | .ok p => (true, p.aes)
+    | .error _ => (false, aes)
+  let (needs, sup, stm, str) := match d with
+    | none => (false, true, false, false)
+    | some e => (e.needsAes, e.supported, e.openNeedsAes || e.methods.head? == some .aes, e.openNeedsAes || e.methods[1]? == some .aes)
+  return Json.mkObj [("ok", Json.bool ok), ("aes", Json.bool after), ("needsAes", Json.bool needs), ("supported", Json.bool sup),
+                     ("ready", Json.bool (S2T.PdfCrypt.ready S2T.Gen.PdfCrypt.code ρ ⟨aes⟩ d)), ("stmAes", Json.bool stm), ("strAes", Json.bool str)]
+
 def handle (op : String) (j : Json) : Option (Except String Json) :=
   match op with
   | "c08.ole" => some (oleOp j)
@@ -147,6 +182,7 @@ def handle (op : String) (j : Json) : Option (Except String Json) :=
   | "c08.odf" => some (odfOp j)
   | "c08.epub" => some (epubOp j)
   | "c08.pdf" => some (pdfOp j)
+  | "c08.pdfopen" => some (pdfOpenOp j)
   | _ => none
 
 end S2T.Drv.C08
